@@ -103,6 +103,13 @@ pub fn run(l: &[i128]) -> Vec<i128> {
                 .is_some();
             vec![ok as i128]
         }
+        [35, len, w, h] => {
+            // Mask::from_vec: exactly width * height bytes (computed without wrapping)
+            let ok = IntSize::from_wh(u(*w), u(*h))
+                .and_then(|s| tiny_skia::Mask::from_vec(vec![0u8; *len as usize], s))
+                .is_some();
+            vec![ok as i128]
+        }
         [32, len, w, h] => {
             let buf = vec![0u8; *len as usize];
             match PixmapRef::from_bytes(&buf, u(*w), u(*h)) {
